@@ -29,7 +29,7 @@ func DefaultsUniverse() *Universe {
 		{P(Int32), "0"}, {P(Int32), "-2147483648"}, {P(Int32), "2147483647"},
 		{P(Int64), "0"}, {P(Int64), "9223372036854775807"}, {P(Int64), "-9223372036854775808"},
 		{P(Float32), "0.0"}, {P(Float32), "3.4028235e38"}, {P(Float32), "1.0e-7"}, {P(Float32), "-2.5"},
-		{P(Float64), "0.0"}, {P(Float64), "1.0e21"}, {P(Float64), "-1.5e-7"}, {P(Float64), "1.7976931348623157e308"},
+		{P(Float64), "0.0"}, {P(Float64), "1.0e21"}, {P(Float64), "-1.5e-7"}, {P(Float64), "1.7976931348623157e308"}, {P(Float64), "-0.0"}, {P(Float32), "-0.0"},
 		{P(Bool), "true"}, {P(Bool), "false"},
 		{P(String), `""`}, {P(String), `"a\"b\\cé"`}, {P(String), `"''"`}, {P(String), `"List(x)"`}, {P(String), `"line\nbreak\ttab"`},
 		{P(Bytes), `""`}, {P(Bytes), `"AB"`}, {P(Bytes), `"ÿ\u0000"`},
